@@ -5,6 +5,21 @@
 // ghost functions used inside them. It is never part of a normal build.
 package wasm
 
+import (
+	"context"
+
+	"github.com/tetratelabs/wazero/api"
+	"github.com/tetratelabs/wazero/experimental"
+	internalsys "github.com/tetratelabs/wazero/internal/sys"
+)
+
+var (
+	_ context.Context
+	_ api.Closer
+	_ experimental.CloseNotifier
+	_ *internalsys.FSContext
+)
+
 // memInv is the representation invariant of a linear memory (C14): a whole number of pages,
 // within the maximum, the page capacity backed by the slice capacity.
 func memInv(m *MemoryInstance) bool {
@@ -152,3 +167,77 @@ func b2i(b bool) int {
 	}
 	return 0
 }
+
+// ======================= C10: module name registry and close protocol =======================
+
+func regHas(s *Store, n string) bool { _, ok := s.nameToModule[n]; return ok }
+
+// regInv: the registry maps a name only to the module that carries that name; the empty name is
+// never registered (anonymous modules).
+func regInv(s *Store) bool {
+	return (s.nameToModule != nil || s.nameToModuleCap == 0) && verif_forall(func(n string) bool {
+		return !regHas(s, n) || (n != "" && s.nameToModule[n] != nil && s.nameToModule[n].ModuleName == n)
+	})
+}
+
+func regClosed(s *Store) bool { return s.nameToModule == nil }
+
+// closeNotified counts close notifications delivered (ghost).
+func closeNotified() int { return verif_ghost_int("closeNotified") }
+
+func closedWord(m *ModuleInstance) uint64 { return m.Closed.Load() }
+
+//@ prop C10
+//@ iface (n experimental.CloseNotifier) CloseNotify(ctx context.Context, exitCode uint32)
+//@   ensures closeNotified() == old(closeNotified()) + 1
+//@   modifies ghost("closeNotified")
+//@ iface (c api.Closer) Close(ctx context.Context) error
+//@   modifies nothing
+//@ iface (l experimental.LinearMemory) Free()
+//@   modifies nothing
+
+//@ func (s *Store) module(moduleName string) (*ModuleInstance, error)
+//@   ensures[found-iff-registered] (r1 == nil) == regHas(s, moduleName)
+//@   ensures[the-owner] r1 == nil ==> r0 == s.nameToModule[moduleName]
+//@   modifies nothing
+
+//@ func (s *Store) Module(moduleName string) *ModuleInstance
+//@   ensures[owner-or-nil] (regHas(s, moduleName) ==> r0 == s.nameToModule[moduleName]) && (!regHas(s, moduleName) ==> r0 == nil)
+//@   modifies nothing
+
+//@ func (s *Store) registerModule(m *ModuleInstance) error
+//@   requires regInv(s)
+//@   ensures[inv] regInv(s)
+//@   ensures[fails-iff-closed-or-owned] (r0 != nil) == (old(regClosed(s)) || (m.ModuleName != "" && old(regHas(s, m.ModuleName))))
+//@   ensures[owner] r0 == nil && m.ModuleName != "" ==> regHas(s, m.ModuleName) && s.nameToModule[m.ModuleName] == m
+//@   ensures[others-unchanged] forall n string :: (n != m.ModuleName || r0 != nil) ==> regHas(s, n) == old[bool](regHas(s, n)) && s.nameToModule[n] == old[*ModuleInstance](s.nameToModule[n])
+//@   ensures[error-changes-nothing] r0 != nil ==> s.moduleList == old(s.moduleList) && m.next == old(m.next) && m.prev == old(m.prev)
+//@   ensures[listed] r0 == nil ==> s.moduleList == m && m.next == old(s.moduleList)
+//@   modifies map(s.nameToModule), s.nameToModuleCap, s.moduleList, m.next, s.moduleList.prev
+
+//@ func (s *Store) deleteModule(m *ModuleInstance) error
+//@   requires regInv(s)
+//@   ensures[inv] regInv(s)
+//@   ensures[own-name-released] (old(regHas(s, m.ModuleName)) && old(s.nameToModule[m.ModuleName]) == m) ==> !regHas(s, m.ModuleName)
+//@   ensures[only-own-entry] forall n string :: !(n == m.ModuleName && old[*ModuleInstance](s.nameToModule[n]) == m) ==> regHas(s, n) == old[bool](regHas(s, n)) && s.nameToModule[n] == old[*ModuleInstance](s.nameToModule[n])
+//@   ensures[detached] m.prev == nil && m.next == nil
+//@   ensures[still-open-store] regClosed(s) == old(regClosed(s))
+//@   loop 0 (nameToModule map[string]*ModuleInstance)
+//@     invariant nameToModule != nil && forall k string :: verif_maphas(nameToModule, k) ==> regHas(s, k) && nameToModule[k] == s.nameToModule[k]
+//@     exit-assume forall k string :: regHas(s, k) ==> verif_maphas(nameToModule, k)
+
+//@ func (m *ModuleInstance) setExitCode(exitCode uint32, flag exitCodeFlag) bool
+//@   requires flag == exitCodeFlagResourceClosed || flag == exitCodeFlagResourceNotClosed
+//@   ensures[wins-iff-open] r0 == (old(closedWord(m)) == 0)
+//@   ensures[packed] r0 ==> closedWord(m) == flag|uint64(exitCode)<<32 && closedWord(m) != 0 && uint32(closedWord(m)>>32) == exitCode
+//@   ensures[loser-changes-nothing] !r0 ==> closedWord(m) == old(closedWord(m))
+//@   modifies m.Closed
+
+//@ func (m *ModuleInstance) IsClosed() bool
+//@   ensures r0 == (closedWord(m) != 0)
+//@   modifies nothing
+
+//@ func (m *ModuleInstance) ensureResourcesClosed(ctx context.Context) (err error)
+//@   ensures[notified-once] closeNotified() == old(closeNotified()) + b2i(old(m.CloseNotifier != nil))
+//@   ensures[released] m.CloseNotifier == nil && m.Sys == nil && m.CodeCloser == nil
+//@   ensures[closed-word-kept] closedWord(m) == old(closedWord(m))
